@@ -125,6 +125,35 @@ def sc_arrays(B, kind, C, D, rU, rV, n_arrays):
     return o
 
 
+def sc_fit_arrays(B, kind, dask):
+    """fit_using_array(X, y) == fit(per-row UBM statistics of X, y)"""
+    C, D, rU, rV = 1, 1, 1, 1
+    labels = [0, 1, 0, 1]
+    X = B.arr("x", (4, D))
+
+    def build():
+        return fa.make_fa(B, kind, C, D, rU, rV, em_iterations=1)
+
+    ref, M = build()
+    ref.fit(M["ubm"].transform(B.copy(X)), list(labels))
+    m, M2 = build()
+    if dask:
+        B.executor("fifo", False)
+    m.fit_using_array(B.copy(X) if not dask else B.darr(B.copy(X), ((1, 3), (D,))), list(labels))
+    o = Outcome()
+    o.same("U", m.U, ref.U)
+    if kind == "jfa":
+        o.same("V", m.V, ref.V)
+        o.same("D", m.D, ref.D)
+    return o
+
+
+def job_fit_arrays(P):
+    for kind in ("isv", "jfa"):
+        for dask in (False, True):
+            P.run("fit_using_array-%s-%s" % (kind, "dask" if dask else "numpy"), sc_fit_arrays, dict(kind=kind, dask=dask), validate=1)
+
+
 def job_score(P, kind, C, D, rU, rV):
     for S in (1, 2, 3):
         P.run("score-S%d" % S, sc_score, dict(kind=kind, C=C, D=D, rU=rU, rV=rV, S=S, twice=(S == 2)), linalg=_la(rU), validate=1)
@@ -149,4 +178,5 @@ def jobs(tier):
             out.append(("score-" + tag, "job_score", dict(kind=kind, C=C, D=D, rU=rU, rV=rV)))
     for kind in ("isv", "jfa"):
         out.append(("arrays-%s@C2D1rU1rV1" % kind, "job_arrays", dict(kind=kind, C=2, D=1, rU=1, rV=1)))
+    out.append(("fit-arrays", "job_fit_arrays", {}))
     return out
